@@ -89,12 +89,14 @@ pub struct RealProblem {
     pub kind: u8,
     /// per-dimension domains: dimension j has [lo / (j + 1), hi / (j + 1)]
     pub hetero: bool,
+    /// the problem's name (the experiment runner names its log files after it)
+    pub label: &'static str,
     pub stats: Arc<Stats>,
 }
 
 impl RealProblem {
     pub fn new(kind: u8, dim: usize, lo: f64, hi: f64) -> Self {
-        Self { lo, hi, dim, kind, hetero: false, stats: Arc::new(Stats::default()) }
+        Self { lo, hi, dim, kind, hetero: false, label: "RealProblem", stats: Arc::new(Stats::default()) }
     }
 }
 
@@ -102,7 +104,7 @@ impl Problem for RealProblem {
     type Encoding = Vec<f64>;
     type Objective = SingleObjective;
     fn name(&self) -> &str {
-        "RealProblem"
+        self.label
     }
 }
 impl VectorProblem for RealProblem {
